@@ -174,6 +174,7 @@ def check(prop_id, tier="quick", seed=0):
             tot["distinct"] += int(res.get("distinct_nontrivial", res.get("states", 0)))
             if not res.get("exhaustive", True): exhaustive = False
             for s in res.get("samples", [])[:3]: samples.append({"leg": leg.name, "case": s})
+            to_replay = []
             for v in res.get("violations", []):
                 # a violation whose signature is already final (monitor verdicts) and listed as an open known finding was confirmed when it was recorded
                 if v.get("kind") == "monitor":
@@ -181,9 +182,15 @@ def check(prop_id, tier="quick", seed=0):
                     kf = match_finding(findings, prop_id, pre)
                     if kf:
                         known.append((kf, pre, "")); continue
-                ok, kind, sig, detail, err = replay_violation(exe, leg, v, workdir, tier)
-                if not ok:
-                    ok, kind, sig, detail, err = replay_violation(exe, leg, v, workdir, tier)
+                to_replay.append(v)
+            # every distinct violation is re-executed alone (a second time if the first replay does not reproduce it); the replays are independent processes, so up to 8 run side by side
+            def replay_twice(v):
+                r = replay_violation(exe, leg, v, workdir, tier)
+                return r if r[0] else replay_violation(exe, leg, v, workdir, tier)
+            import concurrent.futures
+            with concurrent.futures.ThreadPoolExecutor(max_workers=8) as pool:
+                replayed = list(pool.map(replay_twice, to_replay))
+            for v, (ok, kind, sig, detail, err) in zip(to_replay, replayed):
                 if not ok:
                     unconfirmed.append({"leg": leg.name, "sig": v.get("sig"), "kind": v.get("kind"), "ops": v.get("ops"), "replay": kind})
                     continue
